@@ -189,6 +189,21 @@ func (tr *trans) alloc(x *ssa.Alloc, st State) {
 	et := x.Type().Underlying().(*types.Pointer).Elem()
 	l := &Loc{kind: locObj, ref: ref, ty: et}
 	tr.store(st, l, tr.vc.zero(et))
+	tr.onAlloc(ref, et, st)
+}
+
+// onAlloc assumes the declared facts about fresh zero values (e.g. an empty strings.Builder has empty content).
+func (tr *trans) onAlloc(ref Term, et types.Type, st State) {
+	for _, oa := range tr.prog.CS.OnAlloc {
+		env := &Env{tr: tr, vc: tr.vc, pkgPath: oa.PkgPath, st: st, old: st, vars: map[string]SV{}, lets: map[string]Expr{}, errs: &tr.errs}
+		t, _, _ := env.resolveType(oa.Type)
+		if t == nil || !types.Identical(t, et) {
+			continue
+		}
+		env.vars["p"] = env.goSV(ref, types.NewPointer(et))
+		tr.vc.assume(implies(tr.reach[tr.curB.Index], env.elabBool(oa.E)))
+		tr.note("fresh zero value of " + typeKey(et) + " satisfies its declared onalloc fact")
+	}
 }
 
 func (tr *trans) nilCheck(l *Loc, pos token.Pos, what string) {
@@ -599,10 +614,10 @@ func (tr *trans) rangeNext(x *ssa.Next, st State) {
 		tr.vc.declConst(vn, "Int")
 		w := tr.vc.fresh("runewidth")
 		tr.vc.declConst(w, "Int")
-		tr.vc.assume(and(app("<=", "1", w), app("<=", w, "4"), app("<=", app("+", pos, w), app("slen", s))+""))
+		tr.vc.assume(implies(okn, and(app("<=", "1", w), app("<=", w, "4"), app("<=", app("+", pos, w), app("slen", s)))))
 		// ASCII bytes are runes of width 1
-		tr.vc.assume(implies(app("<", app("sat", s, pos), "128"), and(eq(w, "1"), eq(vn, app("sat", s, pos)))))
-		tr.vc.assume(implies(app(">=", app("sat", s, pos), "128"), and(app(">=", vn, "128"), app("<=", vn, "1114111"))))
+		tr.vc.assume(implies(and(okn, app("<", app("sat", s, pos), "128")), and(eq(w, "1"), eq(vn, app("sat", s, pos)))))
+		tr.vc.assume(implies(and(okn, app(">=", app("sat", s, pos), "128")), and(app(">=", vn, "128"), app("<=", vn, "1114111"))))
 		tr.vc.assume(implies(okn, app(">=", vn, "0")))
 		tr.setState(st, pn, ite(okn, app("+", pos, w), pos))
 		tr.tuples[x] = []Term{okn, kn, vn}
